@@ -122,6 +122,7 @@ class CContext:
                 self.error("Type is incomplete, size unknown", typ)
             if typ.fields:
                 size = max(self.sizeof(part.typ) for part in typ.fields)
+                size += required_padding(size, self.alignment(typ))
             else:
                 size = 0
         elif isinstance(typ, types.EnumType):
@@ -215,9 +216,13 @@ class CContext:
             if kind == "struct":
                 bit_offset += bitsize
 
-        # TODO: should we take care here of maximum alignment as well?
-        # Finally align at 8 bits:
+        # Finally pad up to the alignment of the struct, such that all
+        # elements of an array of structs are aligned:
         bit_offset += required_padding(bit_offset, 8)
+        if typ.fields:
+            bit_offset += required_padding(
+                bit_offset, self.alignment(typ) * 8
+            )
         assert bit_offset % 8 == 0
         byte_size = bit_offset // 8
         return byte_size, bit_offsets
